@@ -250,6 +250,12 @@ func (b *builder) fields(out *Msg, d *ir.Message, keyBase string, chain []string
 			// Children of an embedded message are flattened into the embedding message. The
 			// README does not say how a full path addresses them (the code re-bases the
 			// path at the embedding message), so only the Message.Field form is modelled.
+			if len(sub.Fields) == 0 {
+				// an embedded message without fields: its placeholder attribute is flattened into the embedding message
+				out.Attrs = append(out.Attrs, &Attr{Name: "active", Kind: "placeholder", TF: TBool, Computed: true, Owner: sub.Name,
+					Description: "Automatically generated field preventing empty message errors", TypeKey: sub.Name + ".active", DiagSuffix: "active"})
+				continue
+			}
 			childBase := ""
 			en := append(append([]bool{}, embedNullable...), fl.IsNullable())
 			if err := b.fields(out, sub, childBase, ch, en, depth+1, d.Name); err != nil {
